@@ -164,9 +164,24 @@ def oracle(c, o):
     return _oracle_plain(c, o)
 
 
+_REC = []
+NPC = RecordingModule(NPC, _REC, ["fwer_minp", "npc"])
+
+
 def run(c):
     ff = fail_first(failing_calls(c)) if "ff" in c else None
     o = _run(c)
     if ff is not None and isinstance(o, dict):
         o["ff"] = ff
+    if isinstance(o, dict):
+        o["retained_changed"] = retained_changed(_REC)
     return o
+
+
+_oracle_before_retention = oracle
+
+
+def oracle(c, o):
+    if isinstance(o, dict) and o.get("retained_changed"):
+        return {"why": "results kept by the caller changed when later calls were made: " + o["retained_changed"], "cls": "fwer_minp:result-aliased"}
+    return _oracle_before_retention(c, o)
